@@ -181,6 +181,9 @@ class _Fold(ast.NodeTransformer):
         self.generic_visit(node)
         if isinstance(node.func, ast.Name) and node.func.id == "len" and len(node.args) == 1 and not node.keywords and isinstance(node.args[0], ast.Constant) and isinstance(node.args[0].value, (str, bytes)):
             return ast.copy_location(ast.Constant(value=len(node.args[0].value)), node)
+        # getattr(x, '<name>') -> x.<name>
+        if isinstance(node.func, ast.Name) and node.func.id == "getattr" and len(node.args) == 2 and not node.keywords and isinstance(node.args[1], ast.Constant) and isinstance(node.args[1].value, str) and node.args[1].value.isidentifier() and not node.args[1].value.startswith("__"):
+            return ast.copy_location(ast.Attribute(value=node.args[0], attr=node.args[1].value, ctx=ast.Load()), node)
         return node
 
 
@@ -898,7 +901,9 @@ class Inliner:
         decs = [ast.unparse(d) for d in fn.decorator_list]
         if any(d not in ("staticmethod", "classmethod") for d in decs):
             return None
-        if fn.args.vararg or fn.args.kwarg:
+        if fn.args.kwarg:
+            return None
+        if fn.args.vararg and any(isinstance(n, ast.Name) and n.id == fn.args.vararg.arg and isinstance(n.ctx, (ast.Store, ast.Del)) for n in ast.walk(fn)):
             return None
         if _has(fn, (ast.Global,)) or (_has(fn, (ast.Nonlocal,)) and not (self._local_helper(q) and any(isinstance(s, ast.Nonlocal) for s in fn.body) and sum(1 for s in ast.walk(fn) if isinstance(s, ast.Nonlocal)) == 1)):
             return None
@@ -1151,8 +1156,12 @@ class Inliner:
                     return None, None, None, False
                 bound[first] = args.pop(0)
             params = params[1:]
+        extra = None
         if len(args) > len(params):
-            return None, None, None, False
+            if not a.vararg:
+                return None, None, None, False
+            extra = args[len(params):]
+            args = args[:len(params)]
         for p, x in zip(params, args):
             bound[p] = x
         for k in call.keywords:
@@ -1169,6 +1178,9 @@ class Inliner:
                 if p not in dflt:
                     return None, None, None, False
                 bound[p] = dflt[p]
+        if a.vararg:
+            # *rest receives the surplus positional arguments as a tuple
+            bound[a.vararg.arg] = ast.Tuple(elts=list(extra or []), ctx=ast.Load())
         body = copy.deepcopy(hfn.body)
         outer_names = {x for st in body if isinstance(st, ast.Nonlocal) for x in st.names}
         body = [st for st in body if not isinstance(st, ast.Nonlocal)] or [ast.Pass()]
@@ -1185,7 +1197,7 @@ class Inliner:
         names = {n: n + sfx for n in assigned if n not in bound and n not in outer_names}
         exprmap, pre = {}, []
         for p, x in bound.items():
-            if _simple_arg(x) and p not in assigned:
+            if (_simple_arg(x) or (isinstance(x, ast.Tuple) and a.vararg and p == a.vararg.arg and all(_simple_arg(e_) for e_ in x.elts))) and p not in assigned:
                 exprmap[p] = x
             else:
                 names[p] = p + sfx
@@ -1493,7 +1505,9 @@ def explain_vars(fn):
                         if k < last and _effectful(r) and not (chain and _only_touches_alias(r, v, chain)):
                             ok = False
                         if uses_here and isinstance(r, (ast.For, ast.While, ast.Try, ast.With)):
-                            ok = False
+                            # what a for statement iterates over is evaluated once, before its body runs
+                            if not (isinstance(r, ast.For) and all(_contains(r.iter, u) for u in uses_here)):
+                                ok = False
                         if uses_here and k == last and isinstance(r, ast.If) and any(_effectful(b) for b in r.body + r.orelse) and len(uses_here) > 0:
                             # uses inside the branches come after whatever the branches did before them
                             if any(not _contains(r.test, u) for u in uses_here):
@@ -1613,6 +1627,11 @@ def normalize_package(trees, known=None, passes=None):
         inl = Inliner(trees, known)
         stats["inline"] = inl.run()
     for mn, t in trees.items():
+        if on(6):
+            for q, fn, cls, func in qualnames(t, mn):
+                explain_vars(fn)
+        if on(3):
+            _Fold().visit(t)
         if on(8):
             unroll_const_loops(t)
         if on(7):
@@ -1622,6 +1641,9 @@ def normalize_package(trees, known=None, passes=None):
                 explain_vars(fn)
         if on(3):
             _ReCanon().visit(t)
+            _Fold().visit(t)
+        if on(8):
+            unroll_const_loops(t)
         if on(7):
             canon_flow(t)
         ast.fix_missing_locations(t)
@@ -2014,7 +2036,27 @@ def unroll_const_loops(tree):
                 continue
             out = []
             for s in v:
-                if isinstance(s, ast.For) and not s.orelse and isinstance(s.target, ast.Name) and isinstance(s.iter, (ast.Tuple, ast.List)) and 1 <= len(s.iter.elts) <= 8 and all(isinstance(e, ast.Constant) for e in s.iter.elts) \
+                # for t in ([x] if c else Y): B   ->   if c: B[t := x]  else: for t in Y: B
+                if isinstance(s, ast.For) and not s.orelse and isinstance(s.target, ast.Name) and isinstance(s.iter, ast.IfExp) and (isinstance(s.iter.body, (ast.Tuple, ast.List)) or isinstance(s.iter.orelse, (ast.Tuple, ast.List))) \
+                        and not any(isinstance(x, (ast.Break, ast.Continue)) for b in s.body for x in _walk_loop_body(b)):
+                    one = ast.For(target=s.target, iter=s.iter.body, body=s.body, orelse=[])
+                    two = ast.For(target=copy.deepcopy(s.target), iter=s.iter.orelse, body=copy.deepcopy(s.body), orelse=[])
+                    new = ast.If(test=s.iter.test, body=[ast.copy_location(one, s)], orelse=[ast.copy_location(two, s)])
+                    new = ast.fix_missing_locations(ast.copy_location(new, s))
+                    unroll_const_loops(new)
+                    out.append(new)
+                    continue
+                roots = set()
+                if isinstance(s, ast.For) and isinstance(s.iter, (ast.Tuple, ast.List)):
+                    for e in s.iter.elts:
+                        r = e
+                        while isinstance(r, ast.Attribute):
+                            r = r.value
+                        if isinstance(r, ast.Name):
+                            roots.add(r.id)
+                simple_ok = isinstance(s, ast.For) and isinstance(s.iter, (ast.Tuple, ast.List)) and all(_simple_arg(e) for e in s.iter.elts) \
+                    and not any(isinstance(x, ast.Name) and x.id in roots for b in s.body for x in ast.walk(b))
+                if isinstance(s, ast.For) and not s.orelse and isinstance(s.target, ast.Name) and isinstance(s.iter, (ast.Tuple, ast.List)) and 1 <= len(s.iter.elts) <= 8 and (all(isinstance(e, ast.Constant) for e in s.iter.elts) or simple_ok) \
                         and not any(isinstance(x, (ast.Break, ast.Continue, ast.Return, ast.Yield, ast.YieldFrom)) for b in s.body for x in ast.walk(b)) \
                         and not any(isinstance(x, ast.Name) and x.id == s.target.id and isinstance(x.ctx, ast.Store) for b in s.body for x in ast.walk(b)) and len(s.body) <= 3:
                     for e in s.iter.elts:
